@@ -63,6 +63,10 @@ def main():
     sh("git checkout -q -- . && git clean -fdq src", cwd=wt)
     cands = candidates(wt, files)
     random.Random(seed).shuffle(cands)
+    if "--skip" in sys.argv:
+        done = {r["desc"].split(": `")[0] + "|" + r["desc"].split("-> `")[-1] for r in json.load(open(sys.argv[sys.argv.index("--skip") + 1]))}
+    else:
+        done = set()
     print(f"{len(cands)} candidate mutants; running up to {maxn}", flush=True)
     res = []
     for (f, i, a, b, rep, kind) in cands:
@@ -74,6 +78,9 @@ def main():
         lines[i] = orig[:a] + rep + orig[b:]
         open(path, "w").write("\n".join(lines))
         desc = f"{f}:{i+1}: `{orig.strip()[:70]}` -> `{lines[i].strip()[:70]}`"
+        if f"{f}:{i+1}" + "|" + desc.split("-> `")[-1] in done:
+            open(path, "w").write("\n".join(lines[:i] + [orig] + lines[i+1:]))
+            continue
         t0 = time.time()
         c = sh("CARGO_TARGET_DIR=/tmp/t/mut_target cargo check --offline -q --features interruptible,graph_info,verif_hooks 2>&1 | grep -c '^error' ; "
                "CARGO_TARGET_DIR=/tmp/t/mut_target cargo check --offline -q 2>&1 | grep -c '^error'", cwd=wt)
